@@ -55,6 +55,9 @@ def wild(draw):
         if draw(st.integers(0, 15)) == 0:
             p.pop("doc", None)
             feats.append("no-doc")
+        elif draw(st.integers(0, 9)) == 0 and p.get("doc"):
+            p["doc"] = p["doc"].rstrip(".") + draw(st.sampled_from(["..", "...", ", etc..", " ...", "!", "?", ":", ";", ")", "...)"]))
+            feats.append("odd-ending")
     seen = legal = True
     seen = False
     for _n, p in case["params"]:  # recomputed on the FINAL parameter list (the mutations above may drop defaults)
